@@ -14,7 +14,7 @@ mod verif_kani {
     use super::*;
     use crate::nodes::{StringExpression, TableExpression, TableTokens, TriviaKind, TupleArguments, TupleArgumentsTokens};
 
-    //@harness props=C04,C12 kind=bounded fns=get_token_line bound="token with 0 or 1 trailing trivia; trivia content = one of \"\", \"\\n\", \" \\n\\n\"; line numbers symbolic below 2^60" budget=300
+    //@harness props=C04,C12 kind=bounded fns=get_token_line bound="token with 0 or 1 trailing trivia; trivia content = one of \"\", \"\\n\", \" \\n\\n\"; line numbers symbolic below 2^60" budget=400
     //@ desc="get_token_line(token) = the recorded line of the token when it has no trailing trivia, otherwise the recorded line of its last trailing trivia plus the number of newlines in that trivia's text"
     #[kani::proof]
     #[kani::unwind(6)]
